@@ -232,6 +232,13 @@ def run_case(mod, src, tier, keep_events=False):
             mod.run_case(ctx)
             if ctx.i3_violations:
                 ctx.stats["probe.I3_broken"] += 1
+            hz = getattr(ctx, "race_hazards", None)
+            if hz and mod.ID != "C13":
+                # (C13 is about where writes land and whether failures are reported, not about values)
+                raise Violation({"property": mod.ID, "oracle": "shared-file-offset", "call": hz[0]["call"]},
+                                f"{len(hz[0]['units'])}+ tasks of one pool call (W={hz[0]['W']}) move the offset of one "
+                                f"file description inherited from the parent ({hz[0]['path']}): in the real pool "
+                                f"they run concurrently and read from wherever the other left the offset: {hz[0]}")
             if ctx.i3_violations and mod.ID == "C12":
                 v = ctx.i3_violations[0]
                 raise Violation({"property": "C12", "oracle": "I3-task-isolation", "call": v["call"],
